@@ -105,6 +105,27 @@ func zzBuildWhere(nt, nc, nop int) {
 func VerifC13_BuildWhere()     { zzBuildWhere(2, 2, 2) }
 func VerifC13_BuildWhereLong() { zzBuildWhere(3, 3, 6) }
 
+// SELECT list: every column is "*" or a safe identifier, quoted; nothing else
+// reaches the statement text.
+func zzBuildSelect(col string) {
+	second := []string{"*", "id", "b"}[zzverif.Choice("second", 3)]
+	q, _, err := NewORM(nil, "t").NewQueryBuilder().Select(col, second).Build()
+	if err == nil {
+		zzverif.Assert(col == "*" || zzIdentOK(col), "build-accepts-unsafe-select-column")
+		want := func(c string) string {
+			if c == "*" {
+				return "*"
+			}
+			return `"` + c + `"`
+		}
+		zzverif.Assert(q == `SELECT `+want(col)+`, `+want(second)+` FROM "t"`, "build-select-sql-is-not-the-fixed-template")
+	}
+	zzverif.Reach("build-select")
+}
+
+func VerifC13_BuildSelect3()    { zzBuildSelect(zzverif.String("col", 3)) }
+func VerifC13_BuildSelectDot5() { zzBuildSelect(zzverif.StringFrom("col", 5, "a_1.*; -\"'")) }
+
 // JOIN type/table.
 func VerifC13_BuildJoin() {
 	jt := zzverif.StringFrom("jointype", 4, "iInNeErRlLfFtTuU ;")
